@@ -2,6 +2,12 @@
 DEFERRED = "rules for this property are not armed yet (build order: DESIGN.md Appendix D); not claimed until a self-tested rule exists"
 
 CLAIMS = {
+    "C20": {
+        "level": "other",
+        "text": "Panic-site obligations over the MIR of all client-path functions (call-graph reachability from run_on minus writer/encoder code, plus the parameter-decoding API): every Assert terminator, core::panicking call, unwrap/expect, split_at, indexing, drain and byteorder slice writer is either discharged mechanically (constant folding, type-derived intervals, dominating-branch facts with affine length/index forms, loop-range bounds), justified in a reasoned table tied to the invariant rule that backs it, or reported. Found and fixed three crashes (sequence id 255, unknown/truncated command, out-of-order fragments); seven sites in the parameter iterator remain as known findings with a triggering input. Plus loop-shape progress rule and feasibility of the iterator's unreachable!().",
+        "note": "Trusted: no panics inside dependencies; Vec length <= isize::MAX; Read contract. A new panic-capable construct on the client path fails the check until discharged or reasoned.",
+        "technique": "panic-site enumeration over MIR + interval/affine discharge with dominating branch facts; reasoned exception table",
+    },
     "C11": {
         "level": "other",
         "text": "The greeting is computed statically per path (all emissions before the first flush are constants; a local capability array OR-ed under tls_config().is_some() is folded by forward constant propagation) and parsed with an independent protocol-10 parser: PROTOCOL_41 always, CLIENT_SSL exactly on the TLS-offered path and never in the no-tls build, one packet, sequence 0. HandshakeResponse41/320 cursor offsets (caps @0/@2, user @32 / @5, NUL-delimited; user omitted only for the pre-TLS SSL request). Gate: every accepting path passes exactly one after_authentication and its Ok arm, then one flushed OK; rejecting paths write ERR 1045/28000, flush, return the shim's error; no other callback; command loop only after Ok. The user name handed to the shim is a copy of the last parsed response's user slice; a client that set CLIENT_SSL never reaches the shim without the TLS switch and a second response. Both feature configurations.",
